@@ -1,6 +1,9 @@
 package dna
 
 import (
+	"fmt"
+	"math"
+
 	"gonum.org/v1/gonum/mat"
 )
 
@@ -12,4 +15,57 @@ type DNAModel interface {
 	Eigens() (val []float64, leftvectors, rightvectors *mat.Dense, err error)
 	Analytical() bool                // returns true if analytical pij computation is possible and implemented
 	Pij(i, j int, l float64) float64 // Returns -1 if not possible to compute it anatically without eigens (or not yet implemented)
+}
+
+// reversibleEigens computes the eigen values and the left and right eigen vectors of the
+// rate matrix q of a time reversible model having equilibrium frequencies pi.
+//
+// Since pi[i]*q[i][j] == pi[j]*q[j][i], the matrix D^1/2 q D^-1/2 (with D=diag(pi)) is
+// symmetric and has the same eigen values as q. Its orthonormal eigen vectors V give
+// right = D^-1/2 V and left = V^T D^1/2. Contrary to the inverse of the eigen vectors
+// of the general (non symmetric) decomposition, they are always well defined, even when
+// q has multiple eigen values (F81, TN93 or GTR with kappa=1, etc.), in which case
+// the general decomposition may return several times the same eigen vector.
+func reversibleEigens(q *mat.Dense, pi []float64) (val []float64, left, right *mat.Dense, err error) {
+	n := len(pi)
+	right = mat.NewDense(n, n, nil)
+	left = mat.NewDense(n, n, nil)
+
+	for _, p := range pi {
+		if !(p > 0) {
+			// Not symmetrizable: general decomposition
+			var u mat.CDense
+			eigen := &mat.Eigen{}
+			if ok := eigen.Factorize(q, mat.EigenRight); !ok {
+				err = fmt.Errorf("Problem during matrix decomposition")
+				return
+			}
+			val = make([]float64, n)
+			for i, b := range eigen.Values(nil) {
+				val[i] = real(b)
+			}
+			eigen.VectorsTo(&u)
+			right.Apply(func(i, j int, val float64) float64 { return real(u.At(i, j)) }, right)
+			err = left.Inverse(right)
+			return
+		}
+	}
+
+	sym := mat.NewSymDense(n, nil)
+	for i := 0; i < n; i++ {
+		for j := i; j < n; j++ {
+			sym.SetSym(i, j, math.Sqrt(pi[i])*q.At(i, j)/math.Sqrt(pi[j]))
+		}
+	}
+	var v mat.Dense
+	eigen := &mat.EigenSym{}
+	if ok := eigen.Factorize(sym, true); !ok {
+		err = fmt.Errorf("Problem during matrix decomposition")
+		return
+	}
+	val = eigen.Values(nil)
+	eigen.VectorsTo(&v)
+	right.Apply(func(i, j int, val float64) float64 { return v.At(i, j) / math.Sqrt(pi[i]) }, right)
+	left.Apply(func(i, j int, val float64) float64 { return v.At(j, i) * math.Sqrt(pi[j]) }, left)
+	return
 }
